@@ -431,7 +431,8 @@ class IndexLevel:
             return False
 
         node = self
-        for k in key:
+        key_iter = iter(key)
+        for k in key_iter:
             if not node.index.__contains__(k):
                 return False
 
